@@ -1,2 +1,3 @@
 pub mod plan;
 pub mod trace;
+pub mod invariance;
